@@ -2,39 +2,36 @@ import Nsq.Tie.WireStackTree
 import Nsq.Model.WireStack
 /-! Tie (C07 / C11, audit A2): which transport `SetOutputBuffer` re-creates the writer on.
 
-Regenerated from nsqd/client_v2.go + protocol_v2.go on every run (`specs/e1_stack.json`). Exactly
-two shapes are accepted — the tree before fix F30 (`bufio.NewWriterSize(c.Conn, …)`: the raw
-connection) and the tree with it (`c.outputDest`, which every `Upgrade*` sets to the very writer
-it installs) — and `treeFixed` says which one the source is; `Props.C07Stack.this_tree` is stated
-over `trun treeFixed`. The behavioural half is the white-box leg `stack` (harness/e1/stack_test.go)
+Regenerated from nsqd/client_v2.go + protocol_v2.go on every run (`specs/e1_stack.json`). F30 is
+committed (/repo d6aa4e3), so ONLY its shape is accepted (audit B12): `c.outputDest`, which every
+`Upgrade*` sets to the very writer it installs. The shape before it (`bufio.NewWriterSize(c.Conn, …)`:
+the raw connection; `Props.C07Stack.second_identify_leaks_cleartext`) breaks this tie, and the replay
+corpus/C07/fixed/second_identify.stack then reports `second-identify-cleartext` as a VIOLATION.
+`treeFixed` is computed from the facts, `tree_fixed : treeFixed = true`, and
+`Props.C07Stack.this_tree_full` is stated over `trun treeFixed`. The behavioural half is the white-box leg `stack` (harness/e1/stack_test.go)
 and the double-IDENTIFY class of the end-to-end oracle. -/
 namespace Nsq.Tie.WireStack
 open Nsq.Gen.WireStack
 
-/-- `SetOutputBuffer`: flush, then a new writer on the raw connection (unfixed) or on `outputDest` (F30) -/
-theorem setOutputBuffer_shape : setOutputBufferWriter = setUnfixed ∨ setOutputBufferWriter = setFixed := by decide
+/-- `SetOutputBuffer`: flush, then a new writer on `outputDest` (F30) — not on the raw connection (`setUnfixed`) -/
+theorem setOutputBuffer_shape : setOutputBufferWriter = setFixed := by decide
+
+theorem tree_fixed : treeFixed = true := by decide
 
 /-- the three upgrades install a new writer on a new transport; in the fixed tree each records that
 very transport in `outputDest` (so `SetOutputBuffer` re-uses it), nothing else assigns `outputDest`, and
 `UpgradeSnappy` drops a deflate writer installed by an earlier IDENTIFY (`Flush` would keep flushing it) -/
 theorem upgrades_shape :
-    (treeFixed = false ∧
-      upgradeTLSWriter = ["assign c.Writer = bufio.NewWriterSize(c.tlsConn, c.OutputBufferSize)"] ∧
-      upgradeSnappyWriter = ["assign c.Writer = bufio.NewWriterSize(snappy.NewWriter(conn), c.OutputBufferSize)"] ∧
-      upgradeDeflateWriter = ["assign fw, _ := flate.NewWriter(conn, level)",
-                              "assign c.Writer = bufio.NewWriterSize(fw, c.OutputBufferSize)"] ∧
-      destWrites = []) ∨
-    (treeFixed = true ∧
-      upgradeTLSWriter = ["assign c.outputDest = c.tlsConn",
-                          "assign c.Writer = bufio.NewWriterSize(c.tlsConn, c.OutputBufferSize)"] ∧
-      upgradeSnappyWriter = ["assign sw := snappy.NewWriter(conn)",
-                             "assign c.flateWriter = nil",
-                             "assign c.outputDest = sw",
-                             "assign c.Writer = bufio.NewWriterSize(sw, c.OutputBufferSize)"] ∧
-      upgradeDeflateWriter = ["assign fw, _ := flate.NewWriter(conn, level)",
-                              "assign c.outputDest = fw",
-                              "assign c.Writer = bufio.NewWriterSize(fw, c.OutputBufferSize)"] ∧
-      destWrites = [("UpgradeTLS", "assign"), ("UpgradeDeflate", "assign"), ("UpgradeSnappy", "assign")]) := by
+    upgradeTLSWriter = ["assign c.outputDest = c.tlsConn",
+                        "assign c.Writer = bufio.NewWriterSize(c.tlsConn, c.OutputBufferSize)"] ∧
+    upgradeSnappyWriter = ["assign sw := snappy.NewWriter(conn)",
+                           "assign c.flateWriter = nil",
+                           "assign c.outputDest = sw",
+                           "assign c.Writer = bufio.NewWriterSize(sw, c.OutputBufferSize)"] ∧
+    upgradeDeflateWriter = ["assign fw, _ := flate.NewWriter(conn, level)",
+                            "assign c.outputDest = fw",
+                            "assign c.Writer = bufio.NewWriterSize(fw, c.OutputBufferSize)"] ∧
+    destWrites = [("UpgradeTLS", "assign"), ("UpgradeDeflate", "assign"), ("UpgradeSnappy", "assign")] := by
   decide
 
 /-- the model's alphabet is complete: `client.Writer` is assigned by these four functions only -/
